@@ -22,7 +22,7 @@ RULE = ("histories of reads/writes (byte/half/word/doubleword; TOY: 1/2/4 cells)
         "Small scope, exhaustively: ALL operation sequences up to the stated length over a window alphabet at both ends of both memories.")
 ASSUMPTIONS = [
     "values are passed as fixedint values of the access width, as every caller in the repository does",
-    "cells of a write that is only partly inside the valid range are unspecified: the reference re-reads them",
+    "valid cells of a rejected write that is only partly inside the valid range hold either their old or the new contents (either reading is accepted, anything else is a violation)",
     "byte access to the 16-bit-cell TOY memory is outside the property (raises UnsupportedFunctionError)",
 ]
 
@@ -98,10 +98,18 @@ def check(case, stats):
             else:
                 if raised is None:
                     raise Violation("invalid-write-accepted", case, f"op {idx} {op} touches an invalid address")
-                if cls == "partial":  # unspecified for the valid cells: observe them
-                    for c in ref.cells_of(addr, n):
+                if cls == "partial":
+                    # whether the valid cells of a rejected, partly valid write keep their old contents or take the new
+                    # ones is unspecified - but each of them holds one of the two ("the most recently written" cell is
+                    # either the earlier one or this one, never something else)
+                    cb = 8 if kind == "riscv" else 16
+                    for i, c in enumerate(ref.cells_of(addr, n)):
                         if ref.valid(c):
                             got = int(_fn(mem, kind, "r", 1)(c))
+                            old, new = ref.cells.get(c, 0), (val >> (i * cb)) & ((1 << cb) - 1)
+                            if got not in (old, new):
+                                raise Violation("rejected-write-invented-value", case, f"op {idx} {op}: cell {c:#x} reads {got:#x} after the rejected write; "
+                                                f"it held {old:#x}, the write carried {new:#x}")
                             ref.cells[c] = got
                             writers[c] = (idx, n)
         else:
